@@ -169,7 +169,7 @@ def u64be? (bs : List Nat) : Option (Nat × List Nat) := do
 
 def USIZE_MAX : Nat := 2 ^ 64 - 1
 
-inductive VDecErr where | notEnoughBytes | invalid
+inductive VDecErr where | notEnoughBytes | invalid | domain
   deriving Repr, BEq, DecidableEq
 
 /-- `Verifier::try_from_bytes` (framing with checked additions, then the field decoders, then
@@ -218,7 +218,7 @@ def VerifierM.fromBytes (bs : List Nat) : Except VDecErr VerifierM :=
     | some ok =>
       let idx := (List.range piLen).map fun i => bytesToNatBE ((piB.drop (8 * i)).take 8)
       match Domain.new? vk.n with
-      | none => .error .invalid
+      | none => .error .domain
       | some _ => .ok { label := label, vk := vk, ok := ok, piIndexes := idx, size := size, constraints := constraints }
 
 def u64beBytes (n : Nat) : List Nat := natToBytesBE n 8
